@@ -199,6 +199,9 @@ def _merge_key_sorted(x):
 TOOLS = {
     "islice": (lambda x, p: A.islice(x, p.get("n", 2)), lambda it, p: itertools.islice(it, p.get("n", 2)), "iter"),
     "islice3": (lambda x, p: A.islice(x, 1, None, 2), lambda it, p: itertools.islice(it, 1, None, 2), "iter"),
+    # a stride whose stop is not aligned with it: the slice still consumes up to `stop`, as a shared iterator shows
+    "islice4": (lambda x, p: A.islice(x, 0, 4, 2), lambda it, p: itertools.islice(it, 0, 4, 2), "iter"),
+    "islice5": (lambda x, p: A.islice(x, 1, 6, 3), lambda it, p: itertools.islice(it, 1, 6, 3), "iter"),
     "filter": (lambda x, p: A.filter(_pred, x), lambda it, p: builtins.filter(_pred, it), "iter"),
     "filter_async": (lambda x, p: A.filter(_apred, x), lambda it, p: builtins.filter(_pred, it), "iter"),
     "filterfalse": (lambda x, p: A.filterfalse(_pred, x), lambda it, p: itertools.filterfalse(_pred, it), "iter"),
